@@ -1,6 +1,6 @@
 #!/usr/bin/env python3
 """Regenerates /verif/MANIFEST.json from the rule modules present in rules/props (run after adding a module)."""
-import importlib, json, os, sys
+import ast, importlib, json, os, sys
 HERE = os.path.dirname(os.path.dirname(os.path.abspath(__file__)))
 sys.path.insert(0, os.path.join(HERE, 'rules'))
 TITLES = {}
@@ -19,6 +19,19 @@ for pid in sorted(TITLES):
         continue
     m = importlib.import_module('props.' + pid)
     nd = '; '.join(getattr(m, 'NOT_DECIDED', []))
+    # the rule texts declared by the module (ctx.rule('Rxx.y', '...')), so that the claim lists every clause that is decided
+    rules = []
+    for node in ast.walk(ast.parse(open(path).read())):
+        if isinstance(node, ast.Call) and isinstance(node.func, ast.Attribute) and node.func.attr == 'rule' and len(node.args) == 2 and isinstance(node.args[0], ast.Constant):
+            txt = node.args[1]
+            try:
+                t = ast.literal_eval(txt)
+            except Exception:
+                t = ''.join(x.value for x in ast.walk(txt) if isinstance(x, ast.Constant) and isinstance(x.value, str))
+            rules.append((node.args[0].value, ' '.join(str(t).split())[:230]))
+    rules.sort(key=lambda r: [int(x) if x.isdigit() else x for x in r[0].replace('R', '').split('.')])
+    rel = getattr(m, 'RELATED', {}) or {}
+    rule_txt = ' Rules evaluated: ' + ' | '.join(f'{r}: {t}' for r, t in rules) + ((' | shared with sibling properties: ' + ', '.join(f'{k}:{"/".join(x.split("~")[0] for x in v)}' for k, v in rel.items())) if rel else '')
     checks.append(dict(
         property_id=pid,
         quick_cmd=f'./check {pid} --tier quick',
@@ -29,7 +42,7 @@ for pid in sorted(TITLES):
         technique=getattr(m, 'TECHNIQUE', 'custom MIR lints (rustc_private fact extractor): arm-effect typestate tables, guard dominance / must-pass-through on the CFG, who-may-call/construct/write, taint, no-await-between'),
         level_claimed=dict(category='other', design_ref=f'DESIGN.md section 4 ({pid})',
                            text=('Static analysis of the type-checked program (built MIR of tako + hyperqueue, all paths, every run re-extracted from /repo). '
-                                 'Decides structural NECESSARY conditions of the property, not the behaviour as a whole: ' + m.EXPLANATION)),
+                                 'Decides structural NECESSARY conditions of the property, not the behaviour as a whole: ' + m.EXPLANATION + rule_txt)),
         level_note=('Decides only the listed clauses; NOT decided: ' + (nd or 'n/a') + '. Trusted base: rustc MIR construction and callee resolution; '
                     'class-hierarchy expansion of trait calls; hand-written semantic tables with reasons (rules/props, tables/); '
                     'single-threaded executor assumption for await-based rules; ' + '; '.join(getattr(m, 'ASSUMPTIONS', [])))))
@@ -42,6 +55,6 @@ man = dict(
                   kind_free_text='rustc_private MIR fact extractor (nightly) + Python rule library: CFG, dominators, enum-variant dataflow (arm guards), effect summaries over the call graph, taint, await analysis')],
     checks=checks,
     not_applicable=na,
-    notes='Static-analysis family only. Exit codes: 0 held (known findings printed as KNOWN-FINDING), 1 violation, 2 fail-closed (anchor missing / floor not met / build failed), 3 self-test missed a mutant. Known findings: /verif/known_findings.json.')
+    notes='Static-analysis family only. Exit codes: 0 held (known findings printed as KNOWN-FINDING), 1 violation, 1 also when a construct a rule is anchored in can no longer be found (rule ANCHOR), 2 no verdict (the tree does not build / facts cannot be extracted), 3 thorough self-test missed a seeded or mutant patch. Known findings: /verif/known_findings.json.')
 json.dump(man, open(os.path.join(HERE, 'MANIFEST.json'), 'w'), indent=1)
 print('checks', len(checks), 'not_applicable', [x['property_id'] for x in na])
